@@ -8,6 +8,7 @@ permutation, so that the correspondence is EQUALITY of the permutation.
 * `direct_cmk rev A`            pattern of the CRS matrix `A` in stored order (values are never looked at)
 * `direct_cmk_pat rev n code`   compact form for exhaustive enumeration: entry `(i,j)` is stored iff bit `i*n+j` of `code`
                                 is set, rows in increasing column order
+* `direct_cmk_pats rev n k code₁ … code_k`   the same for `k` patterns in one request (result lines concatenated)
 
 Result line: `ok n p₀ … p_{n-1}` or one of the outcomes `oob` (n = 0), `precondition`, `fuel`.
 -/
@@ -36,6 +37,12 @@ def handle (op : String) (args : List String) : Option String :=
   | "direct_cmk_pat" =>
     withArgs (do let rev ← pNat; let n ← pNat; let code ← pNat; pure (rev, n, code)) args fun (rev, n, code) =>
       if !(n ≤ 7 && code < 2 ^ (n * n)) then badInput else run rev (patMatrix n code)
+  | "direct_cmk_pats" =>
+    withArgs (do let rev ← pNat; let n ← pNat; let k ← pNat
+                 if !(1 ≤ k && k ≤ 64) then (fail : P Unit)
+                 let codes ← pMany k pNat; pure (rev, n, codes)) args fun (rev, n, codes) =>
+      if !(rev ≤ 1 && n ≤ 7 && codes.all (fun code => decide (code < 2 ^ (n * n)))) then badInput else
+      joinSp (codes.map fun code => run rev (patMatrix n code))
   | _ => none
 
 end Amgcl.Driver.Cmk
